@@ -281,3 +281,21 @@ func TestFindingF20StaleExponentOfZero(t *testing.T) {
 		}
 	}
 }
+
+// F21: SetFloat stored the sign of x and then converted the mantissa through SetInt, which sets
+// the sign of the integer 0 it is given: SetFloat(-0) returned +0 (SetFloat64(-0) was right).
+func TestFindingF21SetFloatNegativeZero(t *testing.T) {
+	nz := big.NewFloat(math.Copysign(0, -1))
+	for _, p := range []uint{0, 9} {
+		z := new(Decimal).SetPrec(p).SetFloat(nz)
+		if !z.IsZero() || !z.Signbit() {
+			t.Errorf("prec %d: SetFloat(-0) = %s (signbit %v), want -0", p, z.Text('g', -1), z.Signbit())
+		}
+		if z.Acc() != Exact {
+			t.Errorf("prec %d: SetFloat(-0) accuracy %v, want Exact", p, z.Acc())
+		}
+	}
+	if z := new(Decimal).SetFloat(big.NewFloat(0)); !z.IsZero() || z.Signbit() {
+		t.Errorf("SetFloat(+0) = %s (signbit %v), want +0", z.Text('g', -1), z.Signbit())
+	}
+}
